@@ -747,7 +747,7 @@ func judgeLeaf(out *leafOutcome) (vs []viol, facts map[string]int) {
 	n := len(out.Responses)
 	facts["leaf_responses"] = n
 	if n == 0 {
-		add(clsLeafNone+"/"+lc.Kind, "request %s (%s) got no response although every gate was opened and the pools drained sentinel tasks", out.ReqID, lc.Kind)
+		add(clsLeafNone+"/"+lc.Kind, "request %s (%s) got no response although every gate was opened and every task handed to the four pools was consumed", out.ReqID, lc.Kind)
 		return vs, facts
 	}
 	if n > 1 {
